@@ -154,6 +154,14 @@ Lemma_DrawAbstraction ==
   Active => \A j \in 1..NObj : \A r \in Draws :
      Chk(Hint, OSeq[j], r, Conf0) = Chk(Hint, OSeq[j], r + 7 * Lcm, Conf0)
 
+\* size stretching (DESIGN 3.5): both verdict classes are closed under replicating items
+Stretch(x) == IF x.k = "cont" /\ x.cls \in SeqCls \cup {"UColl", "dict_values"}
+              THEN [x EXCEPT !.items = x.items \o x.items] ELSE x
+Lemma_StretchClosure ==
+  (Active /\ Hint.k \in {"seq", "reit", "quasi"}) => \A j \in 1..NObj :
+     /\ Sat(Hint, OSeq[j]) => Sat(Hint, Stretch(OSeq[j]))
+     /\ MustReject(Hint, OSeq[j]) => MustReject(Hint, Stretch(OSeq[j]))
+
 (* -------------------------------------------------------------- rows (R2) *)
 RECURSIVE HasKind(_, _), HasCls(_, _)
 HasKind(h, ks) == h.k \in ks \/ \E i \in DOMAIN h.a : HasKind(h.a[i], ks)
